@@ -23,7 +23,7 @@ CHECKS = {
     "C03": ["C03_Error", "C03_Failed", "C03_Cleanup", "C03_AtomicUpgrade", "C03_AtomicInstall"],
     "C06": ["C06_ReadOnly", "C06_EndSame"],
     "C07": ["C07_Refusal", "C07_Stamped", "C07_DeleteNamed"],
-    "C09": ["C09_CreateFresh", "C09_LoserClean", "C09_Quiescent", "C01_KeyIsBody", "C01_NextRevision", "C01_OneDeployed"],
+    "C09": ["C09_CreateFresh", "C09_UniqueCreator", "C09_LoserClean", "C09_Quiescent", "C01_KeyIsBody", "C01_NextRevision", "C01_OneDeployed"],
     "C12": ["C12_Order", "C12_DeleteBefore", "C12_DeletedByPolicy", "C12_PreHookGate", "C12_PostHookFails",
             "C12_NotInManifest", "C12_Disabled"],
 }
@@ -38,8 +38,8 @@ FAMILY = {
                 sweep=(6, 60)),
     "C06": dict(mc="MC_Dry", gen="MC_GenDry", quick=260, thorough=2000, drivers=["secret", "memory", "configmap"], cli=2),
     "C07": dict(mc="MC_Own", gen="MC_GenOwn", quick=260, thorough=2000, drivers=["secret", "memory", "configmap"]),
-    "C09": dict(mc="MC_Conc", gen="MC_GenConc", quick=150, thorough=1500, drivers=["secret", "memory", "configmap"],
-                extra_mc=["MC_ConcDep.cfg"], extra_mc_thorough=["MC_ConcFault.cfg"],
+    "C09": dict(mc="MC_Conc", gen="MC_GenConc", quick=480, thorough=4000, drivers=["secret", "memory", "configmap"], gen_split=True,
+                extra_mc=["MC_ConcDep.cfg", "MC_ConcLim.cfg"], extra_mc_thorough=["MC_ConcFault.cfg"],
                 extra_gen=["MC_GenConcDep.cfg", "MC_GenConc3.cfg", "MC_GenConcFault.cfg"]),
     "C12": dict(mc="MC_Hooks", gen="MC_GenHooks", quick=220, thorough=2500, drivers=["secret", "memory", "configmap"],
                 sweep=(10, 60)),
@@ -145,6 +145,19 @@ def kf_triggers(evs):
                 for q, sp in spans.items():
                     if q != be["proc"] and any(b2 < at < e2 for b2, e2 in sp):
                         tr.append(("KF-L22-atomic-rollback-races-with-upgrade", at))
+    # L23: pruning (Storage.Create with a history limit) deletes the pending record of an operation in flight
+    owner = {}
+    for i, x in enumerate(evs):
+        if x["ev"] == "call" and x["kind"] == "store" and x["ok"]:
+            if x["verb"] == "create":
+                owner[x["rev"]] = (x["proc"], i)
+            elif x["verb"] == "delete" and x["rev"] in owner and owner[x["rev"]][0] != x["proc"]:
+                q, ci = owner[x["rev"]]
+                mine = [(b2, e2) for b2, e2 in spans.get(x["proc"], []) if b2 <= i <= e2]
+                theirs = [(b2, e2) for b2, e2 in spans.get(q, []) if b2 <= ci <= e2]
+                # the deleting operation overlaps in time with the operation that created the record
+                if mine and theirs and mine[0][0] < theirs[0][1] and theirs[0][0] < mine[0][1]:
+                    tr.append(("KF-L23-prune-deletes-pending-record-of-running-operation", i))
     return tr
 
 
@@ -153,6 +166,8 @@ KF_RELEVANT = {
     "KF-L2-upgrade-supersede-swallowed": {"C01_OneDeployed", "C01_Success"},
     "KF-L2-rollback-supersede-swallowed": {"C01_OneDeployed", "C01_Success"},
     "KF-L14-hook-create-failure-skips-policy-deletes": {"C12_DeletedByPolicy"},
+    "KF-L23-prune-deletes-pending-record-of-running-operation": {"C09_Quiescent", "C09_UniqueCreator", "C09_LoserClean",
+                                                                 "C01_OneDeployed", "C01_Success", "C02_Success"},
     "KF-L22-atomic-rollback-races-with-upgrade": {"C09_Quiescent", "C01_OneDeployed", "C01_Success", "C02_Success",
                                                   "C03_AtomicUpgrade"},
     "KF-L1-replace-keeps-older-deployed": {"C01_OneDeployed", "C01_Success", "C02_Success"},
@@ -164,7 +179,7 @@ KF_RELEVANT = {
     "KF-L6-unstructured-two-way-merge": {"C02_Success", "C03_AtomicUpgrade"},
 }
 # findings whose damage persists in the ledger: later states of the same scenario stay affected
-KF_PERSIST = {"KF-L22-atomic-rollback-races-with-upgrade", "KF-L2-upgrade-supersede-swallowed", "KF-L2-rollback-supersede-swallowed",
+KF_PERSIST = {"KF-L23-prune-deletes-pending-record-of-running-operation", "KF-L22-atomic-rollback-races-with-upgrade", "KF-L2-upgrade-supersede-swallowed", "KF-L2-rollback-supersede-swallowed",
               "KF-L1-replace-keeps-older-deployed"}
 
 
@@ -259,7 +274,10 @@ def race_run(d, scs, seed, tier):
     the property names; it is outside the specification (DESIGN section 8)."""
     hvr = vlib.build_hv("hv", race=True)
     free = []
-    for s in scs[: (40 if tier == "quick" else 300)]:
+    # (on the memory driver the stored records ARE the callers' release objects (L13), so any reader of the
+    # store races with the operation that still mutates them; free runs use the Kubernetes-backed drivers,
+    # the memory driver itself is exercised by `hv stress` at the driver interface)
+    for s in [s_ for s_ in scs if s_["driver"] != "memory"][: (40 if tier == "quick" else 300)]:
         c = dict(s)
         c["sched"] = [{"k": "free", "p": 0}]
         free.append(c)
